@@ -8,6 +8,7 @@ import EG.Single
 import EG.SingleCfg
 import EG.Pickle
 import EG.PickleLoad
+import EG.Copy
 /-
   Main — line-protocol driver of the mirror model M.
   One operation per input line, one answer line per operation
@@ -232,6 +233,8 @@ def parseOp (toks : List String) : Option Op :=
     let ls ← parseListWith (parseId 'L') (optArg opts "l")
     let us ← parseListWith (parseId 'V') (optArg opts "u")
     let attrs ← parseAttrs (optArg opts "a")
+    -- `uf=k`: the `universes=` iterable raises after k items; it is read completely before anything is touched
+    if optArg opts "uf" != "" then pure (.rejected .fault) else
     pure (.newVertex c attrs ls us)
   | "universe" :: opts => do
     let ms ← parseListWith (parseId 'V') (optArg opts "m")
@@ -244,7 +247,7 @@ def parseOp (toks : List String) : Option Op :=
     let c ← LCls.ofString? cls
     -- `bad=k`: the constructor is given `attributes=` that it rejects (raises before anything is touched);
     -- `x=uid`, `la=k` (a caller-supplied uid, user attributes on the link) do not concern the model
-    if a == "!" || b == "!" || optArg opts "bad" != "" then pure .newEdgeIllTyped else
+    if a == "!" || b == "!" || optArg opts "bad" != "" then pure (.rejected .type) else
     let x ← parseOptV a
     let y ← parseOptV b
     pure (.newEdge c x y)
@@ -304,6 +307,10 @@ def step (st : DState) (line : String) : DState × String :=
   match toks with
   | [] => (st, "")
   | ["reset"] => ({}, "ok")
+  | ["reload"] =>
+    -- the caller saves the graph and goes on with the LOADED copy (pickle / deepcopy / nrpickler): the isomorphic copy
+    -- of EG.Copy; the harness names the copies as it named the originals, i.e. the identity renaming
+    ({ st with w := st.w.copy ⟨id, id, id, id⟩ st.w.caching }, "ok")
   | ["reset", _] => ({}, "ok")      -- `reset byvalue`: some vertices are instances of classes pickled by value (C10); same model
   | ["adjdict", cls, body] =>
     match LCls.ofString? cls with
